@@ -292,6 +292,12 @@ func c04Untagged(c *Ctx) {
 				}
 			}
 		}
+		if !ok {
+			// per path (the lookups may have been written as one loop over a list of locations that the baseline view
+			// unrolled): on every way to a nil-error return exactly one untagged lookup, at most one located lookup,
+			// the located one first and only where the location is known to be non-empty
+			ok = c04LookupsPerPath(fn, isLookup, keyArg, fLocID)
+		}
 		c.Check(rule, fnName(fn)+"|located-then-untagged", ok, fn.Pos(), fmt.Sprintf("%d lookups: the located key under the non-empty-location test, the untagged key on every successful path", nl))
 	}
 	// closest-key walk
@@ -353,4 +359,95 @@ func c04Untagged(c *Ctx) {
 // c04CacheKey: the textual cache key separates its components unambiguously (see keyinj.go).
 func c04CacheKey(c *Ctx) {
 	cacheKeyInjective(c, "C04.cache-key")
+}
+
+// c04LookupsPerPath: see the call site. A lookup is classified by where the location bytes of its key come from: the
+// key expression itself (append(locID[:], name...)) or, for a key buffer that is filled in place, the last copy into
+// the buffer on the path. Bytes that derive from the global EmptyLocation are untagged, bytes that derive from a
+// *Location parameter are located.
+func c04LookupsPerPath(fn *ssa.Function, isLookup func(ssa.CallInstruction) bool, keyArg func(ssa.CallInstruction) ssa.Value, fLocID *types.Var) bool {
+	paths, ok := funcPaths(fn, 256)
+	if !ok || len(paths) == 0 {
+		return false
+	}
+	classify := func(v ssa.Value) string {
+		emptyG, param := false, false
+		for x := range backSlice(v, func(v ssa.Value) bool { _, isCall := v.(*ssa.Call); return isCall && isBuiltinCall(v, "append") == nil }) {
+			switch y := x.(type) {
+			case *ssa.Global:
+				if y.Name() == "EmptyLocation" {
+					emptyG = true
+				}
+			case *ssa.FieldAddr:
+				if fieldOf(y) == fLocID {
+					if _, isP := y.X.(*ssa.Parameter); isP {
+						param = true
+					}
+				}
+			}
+		}
+		switch {
+		case emptyG && !param:
+			return "untagged"
+		case param && !emptyG:
+			return "located"
+		}
+		return ""
+	}
+	sawLocated := false
+	for _, p := range paths {
+		last := p.blocks[len(p.blocks)-1]
+		ret, isRet := last.Instrs[len(last.Instrs)-1].(*ssa.Return)
+		if !isRet || len(ret.Results) == 0 {
+			continue
+		}
+		if !isNilConst(p.value(ret.Results[len(ret.Results)-1])) {
+			continue // not a success path
+		}
+		var seq []string
+		lastCopy := ""
+		for _, b := range p.blocks {
+			for _, in := range b.Instrs {
+				ci, isCI := in.(ssa.CallInstruction)
+				if !isCI {
+					continue
+				}
+				if v, isV := in.(ssa.Value); isV {
+					if cp := isBuiltinCall(v, "copy"); cp != nil {
+						if k := classify(cp.Call.Args[1]); k != "" {
+							lastCopy = k
+						}
+						continue
+					}
+				}
+				if !isLookup(ci) {
+					continue
+				}
+				k := classify(keyArg(ci))
+				if k == "" {
+					k = lastCopy
+				}
+				if k == "" {
+					return false
+				}
+				seq = append(seq, k)
+			}
+		}
+		nonEmpty := false
+		for _, f := range p.facts {
+			if b, isB := f.V.(*ssa.BinOp); isB && (isFieldLoad(b.X, fLocID) || isFieldLoad(b.Y, fLocID)) {
+				if (b.Op == token.NEQ && f.Truth) || (b.Op == token.EQL && !f.Truth) {
+					nonEmpty = true
+				}
+			}
+		}
+		switch {
+		case len(seq) == 1 && seq[0] == "untagged":
+		case len(seq) == 2 && seq[0] == "located" && seq[1] == "untagged" && nonEmpty:
+			sawLocated = true
+		default:
+			return false
+		}
+	}
+	return sawLocated
 }
